@@ -23,6 +23,7 @@ import (
 	c4eapp "github.com/chain4energy/c4e-chain/app"
 	appparams "github.com/chain4energy/c4e-chain/app/params"
 	distrtypes "github.com/chain4energy/c4e-chain/x/cfedistributor/types"
+	minterkeeper "github.com/chain4energy/c4e-chain/x/cfeminter/keeper"
 	mintertypes "github.com/chain4energy/c4e-chain/x/cfeminter/types"
 	sigkeeper "github.com/chain4energy/c4e-chain/x/cfesignature/keeper"
 	sigtypes "github.com/chain4energy/c4e-chain/x/cfesignature/types"
@@ -386,6 +387,24 @@ func (r *appRun) runBlock(pb plannedBlock, tracked []sdk.AccAddress, rep *Report
 					"a minter parameter update executed on a dropped branch of the state is visible in the block's state")
 			}
 		}
+	}
+	if pb.discarded != nil {
+		// a probe for the replicas' traces: the full-update message with its optional start time left out, through the message server,
+		// on a branch that is dropped; what it would store goes into the trace (every node must store the same)
+		cc2, _ := ctx.CacheContext()
+		var perr error
+		func() {
+			defer func() {
+				if rec := recover(); rec != nil {
+					perr = fmt.Errorf("panic: %v", rec)
+				}
+			}()
+			_, perr = minterkeeper.NewMsgServerImpl(app.CfeminterKeeper).UpdateParams(sdk.WrapSDKContext(cc2),
+				&mintertypes.MsgUpdateParams{Authority: appparams.GetAuthority(), MintDenom: pb.discarded.MintDenom, Minters: pb.discarded.Minters})
+		}()
+		stored := app.CfeminterKeeper.GetParams(cc2)
+		bz, _ := stored.Marshal()
+		sb.WriteString(fmt.Sprintf("probe-minter-update-without-start-time %v %x;", perr == nil, sha256.Sum256(bz)))
 	}
 	if pb.distrUpdate != nil {
 		r.dcfg = nil // the generated configuration is no longer the one in force
@@ -833,6 +852,12 @@ func runAppCase(seed uint64, idx int, rep *Report, profile string, traceDir stri
 					a, b := fullStoreDump(app, sk), fullStoreDump(twin.app, sk)
 					rep.Eval("C12.store_identical_after_import."+sk, a == b, idx, bIdx, storeDiff(a, b))
 				}
+				// the restarted chain knows the consensus versions of its modules like the original does (x/upgrade has no genesis: the
+				// map is written by InitChainer; a later software upgrade runs the migrations of every module it does not find in it)
+				vm1 := app.UpgradeKeeper.GetModuleVersionMap(app.BaseApp.NewContext(true, tmproto.Header{Height: app.LastBlockHeight()}))
+				vm2 := twin.app.UpgradeKeeper.GetModuleVersionMap(twin.app.BaseApp.NewContext(true, tmproto.Header{Height: twin.app.LastBlockHeight()}))
+				rep.Eval("C12.module_versions_identical_after_import", fmt.Sprint(vm1) == fmt.Sprint(vm2), idx, bIdx,
+					fmt.Sprintf("module version map of the original (%d modules): %v; of the chain restarted from the export (%d modules): %v", len(vm1), vm1, len(vm2), vm2))
 				rep.Count("export_import")
 			}()
 		}
